@@ -159,6 +159,8 @@ def _observe(ns, obj, leaves):
         out["prios"] = sorted((str(k), v) for k, v in obj.default_prios.items())
         out["leafs"] = [str(v.id) for v in obj.leafs()]
         out["select"] = [sorted((str(a), int(b)) for a, b in s[0].items()) for s in obj.select({obj.leafs()[0].id: 1}, solver=_first_feasible)]
+        out["select2"] = [sorted((str(a), int(b)) for a, b in s[0].items()) for s in obj.select({obj.leafs()[0].id: -1}, {obj.leafs()[-1].id: 2}, solver=_first_feasible)]
+        out["select3"] = [sorted((str(a), int(b)) for a, b in s[0].items()) for s in obj.select({}, solver=_first_feasible)]
     return out
 
 
